@@ -368,7 +368,7 @@ def gp_homotopy_run(script, ts=0.0, d0=1.0):
                         log.append({"theta": float(prob.parameters(0)["hth"]), "priority": prob._cur_prio, "ok": bool(ok),
                                     "x0": float(xs[0]), "x0_model_variables": [float(xs[i]) for i in mine]})
                         self._ok = ok
-                        if k > 60:
+                        if k > 390:
                             raise RuntimeError("runaway loop")
                         return {"x": ca.DM(np.full(n, float(k + 1))), "f": ca.DM(0.0), "lam_g": ca.DM.zeros(nlp["g"].shape[0]),
                                 "lam_x": ca.DM.zeros(n)}
